@@ -77,6 +77,20 @@ func GenLockScript(r *Rng, hist map[string]int) []string {
 				add("files")
 			}
 			hist["lock_rejected_open_with_pending_merge"]++
+			if r.Chance(1, 2) {
+				// stray entries in the merge directory (a lock file left by someone who opened the merge output as a
+				// database, a foreign file): the adopting Open takes the rewritten files and the hint file only,
+				// and the directory stays locked for everybody else
+				add("straylock")
+				add("close")
+				c = genCfg(r, o, hist)
+				add("open %s", c)
+				add("open2 %s", genCfg(r, o2, hist))
+				add("openchild %s", genCfg(r, o2, hist))
+				add("dump")
+				add("files")
+				hist["lock_stray_lock_file_in_merge_directory"]++
+			}
 		default:
 			add("put %s @%d:%d", engKeys[r.Intn(5)], 1+r.Intn(30), r.Intn(9999))
 		}
